@@ -101,6 +101,17 @@ CHECKS = {
             "Trusted: accepts(argument, x) measured on the real code (compositional for nested trees); a union is allowed to "
             "reach an argument through its documented stricter stages.",
             "DESIGN.md §3 C09"),
+    "C10": ("bounded-exhaustive differential exploration (fail-fast vs collect_errors with max_errors None/1/2/3) with the set "
+            "of failing top-level items computed independently, every item judged alone as a black box",
+            "Data classes of both bases and decorated functions (keyword parameters, *args:int, **kwargs:int) with 1-3 fields "
+            "over 11 field types (scalars, constrained, List / Tuple / Dict generics, Optional, &, ^, Union with all branches "
+            "failing, nested data class, datetime) x addition None/False/int x every assignment of {absent, 4-5 candidate "
+            "values} to the fields and 0-2 excess keys: equal verdict, equal value on accept, on reject exactly one "
+            "CollectedParseError whose items are failing items only, no duplicates, exactly min(max_errors, #failing) of them; "
+            "the function body is not entered.",
+            "Trusted: 'an item fails iff its type applied alone rejects its value' (measured on the real code, cross-checked "
+            "against the fail-fast verdict on every case) plus the documented absence / excess-key rules.",
+            "DESIGN.md §3 C10"),
     "C16": ("explicit-state exploration (DFS with state dedup) of register/resolve histories on the real "
             "TypeRegistry against a cache-free reference model",
             "All histories of register/resolve operations up to depth 4 (quick) / 5 (thorough) over a menu of "
